@@ -1,5 +1,5 @@
 (* C05 -- Searchers are immutable snapshots; readers only ever see whole commits. *)
-From TV Require Import Base.Prelude Storage.Crash Storage.CrashProofs Storage.ReaderGC Storage.ReaderGCProofs Storage.ReloadStore Storage.ReloadStoreProofs.
+From TV Require Import Base.Prelude Storage.Crash Storage.CrashProofs Storage.ReaderGC Storage.ReaderGCProofs Storage.ReloadStore Storage.ReloadStoreProofs Storage.Flock Storage.FlockProofs.
 Local Open Scope N_scope.
 
 (* For every interleaving (trace of any length, any number of readers, GC runs and publications)
@@ -65,6 +65,18 @@ Theorem C05_unserialized_reload_moves_back :
   rl_observed (rlrun_gen false [Begin 1 true; Publish; Begin 2 false; Look; Resume 1; Look]) = [1; 0].
 Proof. exact unserialized_reload_moves_back. Qed.
 
+(* ---- META_LOCK on the production directory (MmapDirectory: flock on the lock file) ---- *)
+(* The reload/GC discipline above needs META_LOCK sections to exclude each other.  flock locks belong to the inode; the
+   guard's drop only closes the handle (MMAP_LOCK_RELEASE_UNLINKS = 0, regenerated from the source): for every interleaving
+   of opens, lock attempts and releases by any number of threads at most one thread holds the lock. *)
+Theorem C05_mmap_meta_lock_excludes : forall evs, (length (holders (flrun evs)) <= 1)%nat.
+Proof. exact flock_excludes. Qed.
+(* with an unlinking release (the classic unlink race) a waiter on the orphaned inode and a newcomer on a fresh file both hold it *)
+Theorem C05_unlinking_release_breaks_exclusion :
+  holders (flrun_gen true [FOpen 1; FLock 1; FOpen 2; FLock 2; FClose 1; FLock 2; FOpen 3; FLock 3]) = [3; 2].
+Proof. exact unlinking_release_breaks_exclusion. Qed.
+
 Print Assumptions C05_reload_opens_succeed.
+Print Assumptions C05_mmap_meta_lock_excludes.
 Print Assumptions C05_shared_reader_never_moves_back.
 Print Assumptions C05_monotone.
